@@ -170,6 +170,128 @@ Proof.
   - split; [constructor; simpl; rewrite ?sim_ntsc0; auto|]. now rewrite fresh_tsc_eq.
 Qed.
 
+(** ** aborted computations: closed forms *)
+
+Definition cs_hit (s : state) : bool := (cols (tm s) =? k_c (csc s)) && (rows (tm s) =? k_r (csc s)).
+(** the call really waits for the terminal's reply (so an armed fault fires) *)
+Definition cs_waits (e : tenv) (s : state) : bool :=
+  has_tty e && negb (cs_hit s) && negb (ioctl_ok e (tm s)) && qen s.
+Definition memo_waits {A} (e : tenv) (s : state) (entry : option A) : bool :=
+  no_entry entry && (has_tty e && qen s).
+
+(** an armed call either raises leaving the state alone, or IS the plain call *)
+Lemma get_cs_abort_eq e s :
+  get_cs_abort e s
+  = if cs_waits e s then (s, None) else (fst (get_cs e s), Some (snd (get_cs e s))).
+Proof.
+  unfold get_cs_abort, get_cs, cs_waits, cs_hit, compute_cell, ioctl_ok.
+  destruct (has_tty e); simpl; auto.
+  destruct ((cols (tm s) =? k_c (csc s)) && (rows (tm s) =? k_r (csc s))); simpl; auto.
+  destruct (io_px e && negb (has0 (xpx (tm s), ypx (tm s)))); simpl; auto.
+  destruct (qen s); simpl; auto.
+Qed.
+
+Lemma get_nv_abort_eq e s :
+  get_nv_abort e s
+  = if memo_waits e s (m_nv s) then (s, None) else (fst (get_nv e s), Some (snd (get_nv e s))).
+Proof.
+  unfold get_nv_abort, get_nv, memo_waits. destruct (m_nv s); simpl; auto.
+  destruct (has_tty e && qen s); simpl; auto.
+Qed.
+
+Lemma get_col_abort_eq e s k :
+  get_col_abort e s k
+  = if memo_waits e s (m_col s k) then (s, None)
+    else (fst (get_col e s k), Some (snd (get_col e s k))).
+Proof.
+  unfold get_col_abort, get_col, memo_waits. destruct (m_col s k); simpl; auto.
+  destruct (has_tty e && qen s); simpl; auto.
+Qed.
+
+Lemma get_ratio_abort_eq e s :
+  get_ratio_abort e s
+  = if match ratio s with Dynamic => cs_waits e s | Fixed _ => false end then (s, None)
+    else (fst (get_ratio e s), Some (snd (get_ratio e s))).
+Proof.
+  unfold get_ratio_abort, get_ratio. destruct (ratio s); simpl; auto.
+  rewrite get_cs_abort_eq. destruct (cs_waits e s); simpl; auto.
+  now destruct (get_cs e s).
+Qed.
+
+Definition h_live (h : hstate) : bool :=
+  match h_fill h with Some (t0, _) => same_cells t0 (h_tm h) | None => false end.
+
+Lemma sim_hit e s h : Sim e s h -> cs_hit s = h_live h.
+Proof.
+  intros S. destruct S. unfold cs_hit, h_live. rewrite sim_csc0, sim_tm0.
+  destruct (h_fill h) as [[t0 b]|]; simpl.
+  - unfold same_cells. now rewrite (Z.eqb_sym (cols (h_tm h))), (Z.eqb_sym (rows (h_tm h))).
+  - destruct (pos_size_spec _ sim_pos0) as [Pc Pr].
+    destruct (cols (h_tm h) =? 0) eqn:E; [apply Z.eqb_eq in E; lia|]. reflexivity.
+Qed.
+
+Lemma sim_waits e s h :
+  Sim e s h -> cs_waits e s = negb (h_live h) && fresh_cs_waits e (h_tm h) (h_qen h).
+Proof.
+  intro S. unfold cs_waits, fresh_cs_waits. rewrite (sim_hit e s h S).
+  rewrite (sim_tm _ _ _ S), (sim_qen _ _ _ S).
+  destruct (has_tty e), (h_live h), (ioctl_ok e (h_tm h)), (h_qen h); reflexivity.
+Qed.
+
+Lemma sim_cell_abort e s h :
+  Sim e s h -> fill_ok h = true ->
+  Sim e (fst (get_cs_abort e s)) (fst (h_cell_abort e h))
+  /\ snd (get_cs_abort e s) = snd (h_cell_abort e h)
+  /\ fill_ok (fst (h_cell_abort e h)) = true.
+Proof.
+  intros S F. rewrite get_cs_abort_eq. unfold h_cell_abort. fold (h_live h).
+  rewrite (sim_waits e s h S).
+  destruct (negb (h_live h) && fresh_cs_waits e (h_tm h) (h_qen h)); simpl; auto.
+  destruct (sim_cell e s h S F) as (S' & A & F').
+  destruct (h_cell e h); simpl in *. rewrite A. auto.
+Qed.
+
+Lemma sim_get_ratio_abort e s h :
+  Sim e s h -> fill_ok h = true ->
+  Sim e (fst (get_ratio_abort e s)) (fst (h_get_ratio_abort e h))
+  /\ snd (get_ratio_abort e s) = snd (h_get_ratio_abort e h).
+Proof.
+  intros S F. unfold get_ratio_abort, h_get_ratio_abort. rewrite (sim_ratio _ _ _ S).
+  destruct (h_ratio h); simpl; auto.
+  destruct (sim_cell_abort e s h S F) as (S' & A & _).
+  destruct (get_cs_abort e s), (h_cell_abort e h); simpl in *. split; auto. now subst.
+Qed.
+
+Lemma sim_name_abort e s h :
+  Sim e s h ->
+  Sim e (fst (get_nv_abort e s)) (fst (h_name_abort e h))
+  /\ snd (get_nv_abort e s) = snd (h_name_abort e h).
+Proof.
+  intros S. rewrite get_nv_abort_eq. unfold h_name_abort, memo_waits, fresh_memo_waits.
+  rewrite (sim_nv _ _ _ S), (sim_qen _ _ _ S).
+  assert (E : forall A B (f : A -> B) x, no_entry (option_map f x) = no_entry x)
+    by (now destruct x).
+  rewrite E.
+  destruct (no_entry (h_nv h) && (has_tty e && h_qen h)); simpl; auto.
+  destruct (sim_name e s h S) as (S' & A).
+  destruct (h_name e h); simpl in *. rewrite A. auto.
+Qed.
+
+Lemma sim_colors_abort e s h k :
+  Sim e s h ->
+  Sim e (fst (get_col_abort e s k)) (fst (h_colors_abort e h k))
+  /\ snd (get_col_abort e s k) = snd (h_colors_abort e h k).
+Proof.
+  intros S. rewrite get_col_abort_eq. unfold h_colors_abort, memo_waits, fresh_memo_waits.
+  rewrite (sim_col _ _ _ S), (sim_qen _ _ _ S).
+  assert (E : forall A B (f : A -> B) x, no_entry (option_map f x) = no_entry x)
+    by (now destruct x).
+  rewrite E.
+  destruct (no_entry (h_col h k) && (has_tty e && h_qen h)); simpl; auto.
+  destruct (sim_colors e s h k S) as (S' & A).
+  destruct (h_colors e h k); simpl in *. rewrite A. auto.
+Qed.
+
 Lemma sim_set_supp e s h v : Sim e s h -> Sim e (set_supp s v) (hset_supp h v).
 Proof. intros []. constructor; auto. Qed.
 
@@ -278,6 +400,15 @@ Proof.
     destruct (get_nv e s), (h_name e h); simpl in *. now subst.
   - destruct (sim_probe e s h S R2) as (S' & A).
     destruct (get_tsc s), (h_probe h); simpl in *. now subst.
+  - (* the armed calls *)
+    destruct (sim_cell_abort e s h S R1) as (S' & A & _).
+    destruct (get_cs_abort e s), (h_cell_abort e h); simpl in *. now subst.
+  - destruct (sim_get_ratio_abort e s h S R1) as (S' & A).
+    destruct (get_ratio_abort e s), (h_get_ratio_abort e h); simpl in *. now subst.
+  - destruct (sim_colors_abort e s h k S) as (S' & A).
+    destruct (get_col_abort e s k), (h_colors_abort e h k); simpl in *. now subst.
+  - destruct (sim_name_abort e s h S) as (S' & A).
+    destruct (get_nv_abort e s), (h_name_abort e h); simpl in *. now subst.
 Qed.
 
 Lemma sim_init e t0 : pos_size t0 = true -> Sim e (init t0) (hinit t0).
@@ -400,6 +531,20 @@ Proof.
   - destruct (n <=? 0); simpl; auto.
 Qed.
 
+Lemma prov_step_colors e h k : Prov h -> Prov (fst (h_colors e h k)).
+Proof.
+  intro P. unfold h_colors. destruct (h_col h k) eqn:HC; simpl; auto.
+  intro Q. destruct (P Q) as (A & B & C). repeat split; auto. simpl.
+  intros k' b. unfold upd. destruct (Nat.eqb k' k); eauto. intro H. inversion H. now subst.
+Qed.
+
+Lemma prov_step_name e h : Prov h -> Prov (fst (h_name e h)).
+Proof.
+  intro P. unfold h_name. destruct (h_nv h) eqn:HN; simpl; auto.
+  intro Q. destruct (P Q) as (A & B & C). repeat split; auto. simpl.
+  intros b H. inversion H. now subst.
+Qed.
+
 Lemma prov_step e h o : Prov h -> Prov (fst (hstep e h o)).
 Proof.
   intro P. destruct o; simpl; auto.
@@ -423,6 +568,16 @@ Proof.
     intro Q. destruct (P Q) as (A & B & C). repeat split; auto. simpl.
     intros b H. inversion H. now subst.
   - unfold h_probe. destruct (match h_tsc h with Some t0 => same_cells t0 (h_tm h) | None => false end); simpl; auto.
+  - (* the armed calls: either nothing changes or the plain call is made *)
+    unfold h_cell_abort. destruct (_ && _); simpl; auto.
+    pose proof (prov_cell e h P). now destruct (h_cell e h).
+  - unfold h_get_ratio_abort. destruct (h_ratio h); simpl; auto.
+    unfold h_cell_abort. destruct (_ && _); simpl; auto.
+    pose proof (prov_cell e h P). now destruct (h_cell e h).
+  - unfold h_colors_abort. destruct (_ && _); simpl; auto.
+    pose proof (prov_step_colors e h k P). now destruct (h_colors e h k).
+  - unfold h_name_abort. destruct (_ && _); simpl; auto.
+    pose proof (prov_step_name e h P). now destruct (h_name e h).
 Qed.
 
 Lemma prov_run e ops : forall h, Prov h -> Prov (hrun_from e h ops).
@@ -471,6 +626,11 @@ Proof. simpl. destruct (qen s) eqn:Q; simpl; auto. Qed.
 
 Definition keeps_queries (o : op) : bool := match o with DisableQueries => false | _ => true end.
 
+Lemma qen_get_cs e s : qen s = true -> qen (fst (get_cs e s)) = true.
+Proof.
+  intro Q. unfold get_cs. destruct (negb (has_tty e)); simpl; auto. destruct (_ && _); simpl; auto.
+Qed.
+
 Lemma qen_kept e o s : keeps_queries o = true -> qen s = true -> qen (fst (step e s o)) = true.
 Proof.
   intros Kp Q. destruct o; simpl in *; try discriminate; auto.
@@ -502,6 +662,14 @@ Proof.
   - unfold get_kitty, get_nv. destruct (kitty_memo e); [destruct (m_kit s)|]; destruct (m_nv s); auto.
   - unfold get_tsc. destruct (tsc s) as [[v [c r]]|]; simpl; auto.
     destruct (_ && _); auto.
+  - rewrite get_cs_abort_eq. destruct (cs_waits e s); simpl; auto. apply qen_get_cs; auto.
+  - rewrite get_ratio_abort_eq. destruct (match ratio s with Dynamic => _ | Fixed _ => _ end); simpl; auto.
+    unfold get_ratio. destruct (ratio s); simpl; auto.
+    pose proof (qen_get_cs e s Q). now destruct (get_cs e s).
+  - rewrite get_col_abort_eq. destruct (memo_waits e s _); simpl; auto.
+    unfold get_col. destruct (m_col s k); auto.
+  - rewrite get_nv_abort_eq. destruct (memo_waits e s _); simpl; auto.
+    unfold get_nv. destruct (m_nv s); auto.
 Qed.
 
 Lemma run_from_app e ops1 : forall s ops2,
@@ -589,6 +757,14 @@ Proof.
   - unfold get_nv. destruct (m_nv s); auto.
   - unfold get_kitty, get_nv. destruct (kitty_memo e); [destruct (m_kit s)|]; destruct (m_nv s); auto.
   - unfold get_tsc. destruct (tsc s) as [[v [c r]]|]; simpl; auto. destruct (_ && _); auto.
+  - rewrite get_cs_abort_eq. destruct (cs_waits e s); simpl; auto. apply ratio_get_cs.
+  - rewrite get_ratio_abort_eq. destruct (match ratio s with Dynamic => _ | Fixed _ => _ end); simpl; auto.
+    unfold get_ratio. destruct (ratio s) eqn:R; simpl; auto.
+    pose proof (ratio_get_cs e s). destruct (get_cs e s). simpl in *. congruence.
+  - rewrite get_col_abort_eq. destruct (memo_waits e s _); simpl; auto.
+    unfold get_col. destruct (m_col s k); auto.
+  - rewrite get_nv_abort_eq. destruct (memo_waits e s _); simpl; auto.
+    unfold get_nv. destruct (m_nv s); auto.
 Qed.
 
 Lemma ratio_run_frame e ops : forall s,
@@ -716,3 +892,182 @@ Lemma size_cached_fresh e t0 ops :
   let s := run e t0 ops in
   snd (step e s GetTsc) = view_ratio (fresh_tsc (tm s)).
 Proof. intros K W X. exact (getter_fresh e t0 ops GetTsc K W X eq_refl). Qed.
+
+(** ** aborted computations
+
+    An operation whose caller sees the exception leaves the WHOLE state as it was: no
+    cache entry is created, none is modified, no counter moves.  (Stated for every
+    operation; only the armed calls can produce [raised].) *)
+
+Lemma view_cs_not_raised cs : view_cs cs <> raised.
+Proof. unfold view_cs, raised. destruct (has0 cs); discriminate. Qed.
+
+Lemma set_cell_ratio_code e s m :
+  snd (set_cell_ratio e s m) = 0 \/ snd (set_cell_ratio e s m) = 1 \/ snd (set_cell_ratio e s m) = 2.
+Proof.
+  unfold set_cell_ratio. destruct m.
+  - destruct (supp s) as [[|]|]; simpl.
+    + destruct (get_cs e s); simpl; auto.
+    + auto.
+    + destruct (get_cs e s) as [s' cs]; simpl. destruct (negb (has0 cs)); simpl; auto.
+      destruct (get_cs e (set_supp s' (Some true))); simpl; auto.
+  - destruct (supp s) as [[|]|]; simpl; auto.
+    destruct (get_cs e s) as [s' cs]; simpl. destruct (negb (has0 cs)); simpl; auto.
+  - destruct (n <=? 0); simpl; auto.
+Qed.
+
+Lemma aborted_changes_nothing_lemma e s o :
+  snd (step e s o) = raised -> fst (step e s o) = s.
+Proof.
+  destruct o; simpl.
+  - discriminate.
+  - destruct (swap s); discriminate.
+  - destruct (swap s); discriminate.
+  - destruct (qen s); discriminate.
+  - discriminate.
+  - pose proof (set_cell_ratio_code e s m) as C. destruct (set_cell_ratio e s m) as [s' c]; simpl in *.
+    unfold raised. intro H. inversion H. lia.
+  - destruct (get_cs e s); simpl. intro H. now apply view_cs_not_raised in H.
+  - destruct (get_ratio e s); discriminate.
+  - destruct (get_col e s k); discriminate.
+  - destruct (get_nv e s); discriminate.
+  - destruct (get_kitty e s) as [s' []]; discriminate.
+  - destruct (get_tsc s); discriminate.
+  - rewrite get_cs_abort_eq. destruct (cs_waits e s); simpl; auto.
+    intro H. now apply view_cs_not_raised in H.
+  - rewrite get_ratio_abort_eq. destruct (match ratio s with Dynamic => _ | Fixed _ => _ end); simpl; auto.
+    discriminate.
+  - rewrite get_col_abort_eq. destruct (memo_waits e s _); simpl; auto. discriminate.
+  - rewrite get_nv_abort_eq. destruct (memo_waits e s _); simpl; auto. discriminate.
+Qed.
+
+(** an armed call either raises (and changes nothing) or IS the plain call *)
+Lemma abort_raises_or_plain e s o :
+  (snd (step e s o) = raised /\ fst (step e s o) = s) \/ step e s o = step e s (plain o).
+Proof.
+  destruct o; try (right; reflexivity); simpl.
+  - rewrite get_cs_abort_eq. destruct (cs_waits e s); simpl; auto. right. now destruct (get_cs e s).
+  - rewrite get_ratio_abort_eq. destruct (match ratio s with Dynamic => _ | Fixed _ => _ end); simpl; auto.
+    right. now destruct (get_ratio e s).
+  - rewrite get_col_abort_eq. destruct (memo_waits e s _); simpl; auto. right. now destruct (get_col e s k).
+  - rewrite get_nv_abort_eq. destruct (memo_waits e s _); simpl; auto. right. now destruct (get_nv e s).
+Qed.
+
+(** the same on the history alone *)
+Lemma aborted_spec_changes_nothing e h o :
+  snd (hstep e h o) = raised -> fst (hstep e h o) = h.
+Proof.
+  destruct o; simpl.
+  - discriminate.
+  - destruct (h_swap h); discriminate.
+  - destruct (h_swap h); discriminate.
+  - destruct (h_qen h); discriminate.
+  - discriminate.
+  - destruct (h_set_ratio e h m) as [h' c] eqn:E; simpl. unfold raised. intro H. inversion H. subst c.
+    exfalso. revert E. unfold h_set_ratio. destruct m.
+    + destruct (h_supp h) as [[|]|]; simpl.
+      * destruct (h_cell e h); simpl. intro E; inversion E.
+      * intro E; inversion E.
+      * destruct (h_cell e h) as [h1 cs]; simpl. destruct (negb (has0 cs)); simpl.
+        -- destruct (h_cell e (hset_supp h1 (Some true))); simpl. intro E; inversion E.
+        -- intro E; inversion E.
+    + destruct (h_supp h) as [[|]|]; simpl; try (intro E; inversion E; fail).
+      destruct (h_cell e h) as [h1 cs]; simpl. destruct (negb (has0 cs)); simpl; intro E; inversion E.
+    + destruct (n <=? 0); intro E; inversion E.
+  - destruct (h_cell e h); simpl. intro H. now apply view_cs_not_raised in H.
+  - destruct (h_get_ratio e h); discriminate.
+  - destruct (h_colors e h k); discriminate.
+  - destruct (h_name e h); discriminate.
+  - destruct (h_name e h) as [h' v]; simpl. unfold view_b. destruct (is_kitty v); discriminate.
+  - destruct (h_probe h); discriminate.
+  - unfold h_cell_abort. destruct (_ && _); simpl; auto.
+    destruct (h_cell e h); simpl. intro H. now apply view_cs_not_raised in H.
+  - unfold h_get_ratio_abort. destruct (h_ratio h); simpl; [discriminate|].
+    unfold h_cell_abort. destruct (_ && _); simpl; auto.
+    destruct (h_cell e h); simpl. discriminate.
+  - unfold h_colors_abort. destruct (_ && _); simpl; auto. destruct (h_colors e h k); discriminate.
+  - unfold h_name_abort. destruct (_ && _); simpl; auto. destruct (h_name e h); discriminate.
+Qed.
+
+(** an aborted computation is invisible to the rest of the history: deleting it from the
+    history gives the same state, hence the same answers ever after *)
+Lemma aborted_is_invisible e t0 ops1 a ops2 :
+  snd (step e (run e t0 ops1) a) = raised ->
+  run e t0 (ops1 ++ a :: ops2) = run e t0 (ops1 ++ ops2).
+Proof.
+  intro H. unfold run in *. rewrite !run_from_app. simpl.
+  now rewrite (aborted_changes_nothing_lemma _ _ _ H).
+Qed.
+
+(** the seeded pattern, stated directly: a cell-size computation that was aborted is
+    simply made again by the next call — whose answer is the fresh one for the current
+    terminal with queries enabled (an aborted query implies they are), whatever an
+    earlier computation at another terminal size left in the cache *)
+Lemma retry_after_abort_fresh e t0 ops :
+  kitty_memo e = false ->
+  wf_sizes t0 (ops ++ [GetCellSizeAbort; GetCellSize]) = true ->
+  px_ok e t0 (ops ++ [GetCellSizeAbort; GetCellSize]) ->
+  let s := run e t0 ops in
+  snd (step e s GetCellSizeAbort) = raised ->
+  snd (step e (fst (step e s GetCellSizeAbort)) GetCellSize)
+  = view_cs (fresh_cs e (tm s) (swap s) true).
+Proof.
+  intros K W X s R.
+  rewrite (aborted_changes_nothing_lemma _ _ _ R).
+  (* the history without the aborted call satisfies the hypotheses as well *)
+  assert (W' : wf_sizes t0 (ops ++ [GetCellSize]) = true).
+  { apply wf_sizes_split in W. destruct W as [W1 W2]. unfold wf_sizes. rewrite W1. simpl.
+    rewrite forallb_app in *. apply andb_prop in W2. destruct W2 as [W2 _]. now rewrite W2. }
+  assert (S : Sim e s (hrun e t0 ops)).
+  { unfold px_ok in X. rewrite px_okb_app in X. apply andb_prop in X. destruct X as [X1 _].
+    apply wf_sizes_split in W'. destruct W' as [W1 W2]. rewrite forallb_app in W2.
+    apply andb_prop in W2. destruct W2 as [W2 _].
+    apply sim_after; auto. unfold wf_sizes. now rewrite W1, W2. }
+  assert (X' : px_ok e t0 (ops ++ [GetCellSize])).
+  { unfold px_ok in *. rewrite px_okb_app in *. apply andb_prop in X. destruct X as [X1 X2].
+    rewrite X1. cbn [px_okb] in *. apply andb_prop in X2. destruct X2 as [X2 _].
+    change (read_okb (hrun_from e (hinit t0) ops) GetCellSize)
+      with (read_okb (hrun_from e (hinit t0) ops) GetCellSizeAbort). now rewrite X2. }
+  pose proof (cell_size_fresh e t0 ops K W' X') as F. simpl in F. fold s in F.
+  (* the aborted call found no live entry and queries enabled: the retry computes *)
+  assert (Rh : snd (hstep e (hrun e t0 ops) GetCellSizeAbort) = raised).
+  { unfold px_ok in X. rewrite px_okb_app in X. apply andb_prop in X. destruct X as [_ X2].
+    simpl in X2. apply andb_prop in X2. destruct X2 as [X2 _].
+    destruct (sim_step e s (hrun e t0 ops) GetCellSizeAbort K S eq_refl X2) as [_ A].
+    now rewrite <- A. }
+  assert (P : cell_prov (hrun e t0 ops) = true).
+  { revert Rh. simpl. unfold h_cell_abort, fresh_cs_waits, cell_prov.
+    destruct (h_fill (hrun e t0 ops)) as [[t1 b]|].
+    - destruct (same_cells t1 (h_tm (hrun e t0 ops))); simpl.
+      + destruct (h_cell e (hrun e t0 ops)); simpl. intro H. now apply view_cs_not_raised in H.
+      + destruct (has_tty e && negb (ioctl_ok e (h_tm (hrun e t0 ops))) && h_qen (hrun e t0 ops)) eqn:E; simpl.
+        * intros _. apply andb_prop in E. tauto.
+        * destruct (h_cell e (hrun e t0 ops)); simpl. intro H. now apply view_cs_not_raised in H.
+    - simpl.
+      destruct (has_tty e && negb (ioctl_ok e (h_tm (hrun e t0 ops))) && h_qen (hrun e t0 ops)) eqn:E; simpl.
+      + intros _. apply andb_prop in E. tauto.
+      + destruct (h_cell e (hrun e t0 ops)); simpl. intro H. now apply view_cs_not_raised in H. }
+  rewrite <- P. exact F.
+Qed.
+
+(** non-vacuity: a history with an aborted computation in the middle — compute, resize
+    in cells (the ioctl gives no pixel size: the terminal is queried), aborted call,
+    call again at the same size: the retry answers (9, 25), not the (10, 20) of before *)
+Definition ab_ops : list op :=
+  [GetCellSize; Resize {| cols := 100; rows := 30; xpx := 900; ypx := 750 |};
+   GetCellSizeAbort; GetCellSize; GetNameVersionAbort; GetNameVersion;
+   DisableQueries; GetColorsAbort 2; EnableQueries; GetColorsAbort 2; GetColors 2;
+   SetRatio RAutoDynamic; Resize f9_t0; GetCellRatioAbort; GetCellRatio].
+
+Example aborted_history_satisfiable :
+  kitty_memo nv_env = false /\ wf_sizes f9_t0 ab_ops = true /\ px_ok nv_env f9_t0 ab_ops
+  /\ trace nv_env (init f9_t0) ab_ops
+     = [([1; 10; 20], [1; 0; 0; 0]); ([], [1; 0; 0; 0]);
+        (raised, [1; 0; 0; 0]); ([1; 9; 25], [2; 0; 0; 0]);
+        (raised, [2; 0; 0; 0]); ([1; 1], [2; 0; 1; 0]);
+        ([], [2; 0; 1; 0]); ([0; -1; -1], [2; 1; 1; 0]); ([], [2; 1; 1; 0]);
+        (raised, [2; 1; 1; 0]); ([2; 255; -1], [2; 2; 1; 0]);
+        ([0], [3; 2; 1; 0]); ([], [3; 2; 1; 0]); (raised, [3; 2; 1; 0]); ([10; 20], [4; 2; 1; 0])]
+  /\ snd (step nv_env (run nv_env f9_t0 (firstn 2 ab_ops)) GetCellSizeAbort) = raised
+  /\ run nv_env f9_t0 (firstn 3 ab_ops) = run nv_env f9_t0 (firstn 2 ab_ops).
+Proof. repeat split; vm_compute; reflexivity. Qed.
